@@ -6,7 +6,7 @@ from .c01 import LEVEL, TECHNIQUE, ASSUMPTIONS  # noqa: F401  pylint: disable=un
 
 RULE = ('every schedule with at most `preemption_bound` preemptions of Scheduler.schedule() for each listed configuration: acyclic '
         'graphs with every outcome, cyclic graphs (self loop, 2-cycle, 3-cycle, cycle closed only by a soft edge, cycle hanging off '
-        'a DAG), initial environments holding DONE/FAILED/SKIPPED entries; every execution must end with the master returned or '
+        'a DAG), initial environments holding DONE/FAILED/SKIPPED entries, and a second schedule() call on the same Scheduler object; every execution must end with the master returned or '
         'raised, no model thread alive, no blocked thread (deadlock = no enabled thread while one is unfinished; livelock = 5000 '
         'visible operations), and the work queue empty; non-trivial = executions with at least one preemption')
 
@@ -51,6 +51,10 @@ def plan(tier):
                 outs[k] = bad
                 out.append((C.cfg(3, edges, outs, 2), 1))
     out.append((C.cfg(2, [], ['ok', 'ok'], 2), 2))
+    # the same Scheduler object asked to schedule twice (second call on the environment left by the first)
+    for wrk in workers:
+        out.append((C.cfg(1, [], ['ok'], wrk, calls=2), 1))
+        out.append((C.cfg(2, C.CHAIN2, ['fail', 'ok'], wrk, calls=2), 1))
     out.append((C.cfg(2, [], ['ok', 'ok'], 3), 1))
     if tier == 'thorough':
         out.append((C.cfg(2, C.CHAIN2, ['ok', 'ok'], 2), 3))
@@ -140,7 +144,7 @@ def real_thread_runs(rep, tier):
 
 
 def run(tier, seed):
-    rep = check.run_configs('C03', plan(tier), seed, 150 if tier == 'quick' else 3000)
+    rep = check.run_configs('C03', plan(tier), seed, 420 if tier == 'quick' else 3000)
     real_thread_runs(rep, tier)
     if tier == 'thorough':      # all interleavings (sleep sets) of the smallest configurations
         rep.merge(check.run_por('C03', [C.cfg(1, [], ['ok'], 1), C.cfg(1, [], ['ok'], 2), C.cfg(1, [], ['notpair'], 2), C.cfg(2, C.CHAIN2, ['ok', 'ok'], 1), C.cfg(2, CYC2SOFT, ['ok', 'ok'], 1, cyclic=True)], seed))
